@@ -180,6 +180,9 @@ func (r *Run) Violation(key string, detail any) bool {
 	}
 	h := sha256.Sum256([]byte(key))
 	dir := filepath.Join(Root, "replays", r.ID)
+	if os.Getenv("VERIF_MUTANT") != "" || (os.Getenv("VERIF_REPO") != "" && os.Getenv("VERIF_REPO") != "/repo") {
+		dir = filepath.Join(Root, ".work", lower(r.ID), "replays-scratch") // mutation demos must not litter the real replay dir
+	}
 	os.MkdirAll(dir, 0o755)
 	p := filepath.Join(dir, hex.EncodeToString(h[:6])+".json")
 	b, _ := json.MarshalIndent(map[string]any{"property": r.ID, "key": key, "tier": r.Tier, "detail": detail}, "", " ")
